@@ -257,6 +257,101 @@ Proof. intros H. unfold cat_to_dict. rewrite H. reflexivity. Qed.
 
 End Dict.
 
+(* ---------------- error branches ---------------- *)
+Section Errors.
+Context {T : Type} (N : NumOps T) (IO : IoOps T).
+
+(* a line holding a single token under a non-text key raises (IndexError) *)
+Theorem parse_line_one_token st l k :
+  tokens l = [k] -> key_class (lower k) <> KCText -> parse_line IO st l = None.
+Proof.
+  intros Ht Hk. unfold parse_line, parse_line_gen, line_value. rewrite Ht. cbn [hd tl].
+  destruct (key_class (lower k)); [congruence| | |]; reflexivity.
+Qed.
+
+(* an exception in one line aborts the whole header *)
+Lemma parse_lines_none ls :
+  fold_left (fun st l => match st with Some s => parse_line IO s l | None => None end) ls None = None.
+Proof. induction ls; simpl; auto. Qed.
+
+(* a byte order letter other than I/M is rejected (ValueError) *)
+Theorem finish_stream_bad_byteorder c p b :
+  get_text c "byteorder" = Some b -> b <> "m" -> b <> "i" -> finish_stream N IO (c, p) = None.
+Proof.
+  intros H Hm Hi. unfold finish_stream. cbn [fst]. rewrite H.
+  apply String.eqb_neq in Hm. apply String.eqb_neq in Hi. rewrite Hm, Hi. reflexivity.
+Qed.
+
+(* an integer no-data value outside the range of an integer type is rejected (OverflowError) *)
+Theorem conv_nodata_out_of_range d z :
+  fst d <> KFloat -> in_range d z = false -> conv_nodata N IO d (NInt z) = None.
+Proof.
+  intros Hk Hr. unfold conv_nodata. destruct (fst d); [| |congruence]; rewrite Hr; reflexivity.
+Qed.
+
+Theorem mk_grid_bad_nodata name nc nr csz xll yll d nd comment :
+  conv_nodata N IO d nd = None -> mk_grid N IO name nc nr csz xll yll d nd comment = None.
+Proof.
+  intros H. unfold mk_grid. rewrite H.
+  destruct (negb (in_i64 nc && in_i64 match nr with Some r => r | None => nc end)); reflexivity.
+Qed.
+
+(* negative dimensions are rejected (np.zeros) *)
+Theorem mk_grid_negative name nc nr csz xll yll d nd comment :
+  nr < 0 \/ nc < 0 -> mk_grid N IO name nc (Some nr) csz xll yll d nd comment = None.
+Proof.
+  intros H. unfold mk_grid.
+  destruct (negb (in_i64 nc && in_i64 nr)); [reflexivity|].
+  destruct (conv_nodata N IO d nd); [|reflexivity].
+  destruct (nr <? 0) eqn:E1; [reflexivity|]. destruct (nc <? 0) eqn:E2; [reflexivity|].
+  apply Z.ltb_ge in E1. apply Z.ltb_ge in E2. lia.
+Qed.
+
+(* from_dict needs "name" and "ncols" (KeyError) *)
+Theorem from_dict_missing d :
+  lookup "name" d = None \/ lookup "ncols" d = None -> from_dict N IO d = None.
+Proof.
+  intros [H|H]; unfold from_dict; rewrite H; [reflexivity|].
+  destruct (lookup "name" d) as [[]|]; reflexivity.
+Qed.
+
+End Errors.
+
+(* number of items numpy.fromfile returns: whole items only *)
+Lemma decode_aux_length n bo : forall bytes cur k,
+  (k < n)%nat ->
+  List.length (decode_aux n bo cur k bytes) = ((List.length bytes + (n - 1 - k)) / n)%nat.
+Proof.
+  induction bytes as [|b r IH]; intros cur k Hk.
+  - simpl. symmetry. apply Nat.div_small. lia.
+  - cbn [decode_aux]. destruct k.
+    + cbn [List.length]. rewrite IH by lia.
+      replace (n - 1 - (n - 1))%nat with 0%nat by lia.
+      replace (S (List.length r) + (n - 1 - 0))%nat with (List.length r + 0 + 1 * n)%nat by lia.
+      rewrite Nat.div_add by lia. lia.
+    + rewrite IH by lia. cbn [List.length]. f_equal. lia.
+Qed.
+
+Theorem decode_length n bo bytes :
+  (0 < n)%nat -> List.length (decode n bo bytes) = (List.length bytes / n)%nat.
+Proof.
+  intros Hn. destruct n as [|k]; [lia|]. unfold decode.
+  rewrite decode_aux_length by lia. f_equal. lia.
+Qed.
+
+(* Grid.load: the file must hold exactly nrows*ncols whole items *)
+Theorem load_size_iff {T} (m : gmeta T) bo bytes :
+  In (g_dtype m) all_dtypes ->
+  (load m bo bytes <> None <->
+   Z.of_nat (List.length bytes / Z.to_nat (snd (g_dtype m))) = g_nrows m * g_ncols m).
+Proof.
+  intros Hd. destruct (all_dtypes_bytes _ Hd) as [_ Hn]. unfold load.
+  rewrite decode_length by assumption.
+  destruct (Z.of_nat (List.length bytes / Z.to_nat (snd (g_dtype m))) =? g_nrows m * g_ncols m) eqn:E.
+  - apply Z.eqb_eq in E. split; [intros _; exact E | intros _; discriminate].
+  - apply Z.eqb_neq in E. split; [intros H; congruence | intros H; contradiction].
+Qed.
+
 (* binary64 instance used by the refutations: tokens of the few values involved *)
 Definition demoIO : IoOps float :=
   tabIO [(1%float, "1.0"); (0%float, "0.0")] [("1.0", 1%float); ("0.0", 0%float)].
